@@ -52,6 +52,19 @@ def bound(name, sort):
     return z3.Const('%s!b%d' % (name, _bv[0]), sort)
 
 
+DEFS = {}      # lifted lambdas: array constant name -> (bound vars, body)
+
+
+def lifted_lambda(vs, body, name='lam'):
+    """lambda vs. body as a fresh array constant with the defining axiom  forall vs. arr[vs] == body
+    (E-matching friendly; z3's native lambdas are incomplete when a lambda occurs inside its own index term)."""
+    arr = fresh(name, z3.ArraySort(*[v.sort() for v in vs], body.sort()))
+    DEFS[str(arr)] = (list(vs), body)
+    axiom('def:' + str(arr), z3.ForAll(list(vs), arr[tuple(vs) if len(vs) > 1 else vs[0]] == body,
+                                       patterns=[arr[tuple(vs) if len(vs) > 1 else vs[0]]]), [str(arr)], 'definitional')
+    return arr
+
+
 def fresh_fn(prefix, *sig):
     _counter[0] += 1
     return z3.Function('%s!%d' % (prefix, _counter[0]), *sig)
@@ -60,6 +73,9 @@ def fresh_fn(prefix, *sig):
 def reset_names():
     _counter[0] = 0
     del FRESH_LOG[:]
+    for k in list(DEFS):
+        del DEFS[k]
+    AXIOMS[:] = [a for a in AXIOMS if not a[0].startswith('def:')]
 
 
 # ------------------------------------------------------------------------------------ spec functions
